@@ -266,11 +266,8 @@ def protojsonLaxQuotedNumber (k : Kind) (tree : Option J) : Bool :=
     | none => false
 
 /-- judge one decode observation against model and specification; returns a verdict -/
-def judgeDec (ops : FloatOps) (o : Opts) (c : Card) (explicit : Bool) (k : Kind) (tree : Option J) (crossCheck : Bool)
-    (impl oracle : Obs) : String :=
-  let model : Res Field := match tree with
-    | some j => decode ops o c k j
-    | none => .err
+def judgeDecM (ops : FloatOps) (o : Opts) (c : Card) (explicit : Bool) (k : Kind) (tree : Option J) (crossCheck : Bool)
+    (model : Res Field) (impl oracle : Obs) : String :=
   let spec : Option (Res Field) := match tree with
     | some j => canon ops o c k j
     | none => none
@@ -320,6 +317,48 @@ def judgeDec (ops : FloatOps) (o : Opts) (c : Card) (explicit : Bool) (k : Kind)
               let g := if spec.isNone then "grey" else "ok"
               s!"OK nt b={kt}.{g}"
         | m => s!"DIFF model={resTag m}"
+
+def judgeDec (ops : FloatOps) (o : Opts) (c : Card) (explicit : Bool) (k : Kind) (tree : Option J) (crossCheck : Bool)
+    (impl oracle : Obs) : String :=
+  judgeDecM ops o c explicit k tree crossCheck (match tree with
+    | some j => decode ops o c k j
+    | none => .err) impl oracle
+
+/-- after this body the real decoder and the tokenizer are no longer in step: text that does not tokenize, or a
+    singular float/double field offered an array/object (`jsonFloatDecode` reads one token, i.e. only the bracket) -/
+def desyncs (c : Card) (k : Kind) (tree : Option J) : Bool :=
+  match tree with
+  | none => true
+  | some j =>
+    match c, k, j with
+    | .sing, .float, .arr _ | .sing, .float, .obj _ | .sing, .double, .arr _ | .sing, .double, .obj _ => true
+    | _, _, _ => false
+
+/-- judge a sequence of bodies decoded by ONE stream decoder: the model is `decodeStream` (= body-wise `decode`,
+    `C09_stream_is_map`), every element is judged against model / canon / protojson like a single `dec` case;
+    judging stops after a body that desynchronises the stream. -/
+def judgeStream (ops : FloatOps) (o : Opts) (c : Card) (explicit : Bool) (k : Kind) (crossCheck : Bool)
+    (trees : List (Option J)) (impls oracles : List Obs) : String :=
+  let valid := trees.filterMap id
+  let models := decodeStream ops o c k valid
+  let rec go (ts : List (Option J)) (ms : List (Res Field)) (rs os : List Obs) (n : Nat) (okc : Nat) : String :=
+    match ts with
+    | [] => s!"OK nt b=seq.{kindTag k}.len{n}.ok{okc}"
+    | t :: ts' =>
+      match rs with
+      | [] => s!"DIFF stream-stopped-early at={n}"
+      | r :: rs' =>
+        let (m, ms') := match t, ms with
+          | some _, m :: ms' => (m, ms')
+          | _, ms => (Res.err, ms)
+        let orc := match os with
+          | x :: _ => x
+          | [] => Obs.err
+        let v := judgeDecM ops o c explicit k t (crossCheck && !os.isEmpty) m r orc
+        if !v.startsWith "OK" then s!"{v} at={n}"
+        else if desyncs c k t then s!"OK nt b=seq.{kindTag k}.desync{n}"
+        else go ts' ms' rs' (os.drop 1) (n + 1) (okc + (match r with | .ok _ _ => 1 | _ => 0))
+  go trees models impls oracles 0 0
 
 def scalarsOf : Field → List Scalar
   | .sing (some v) => [v]
@@ -423,6 +462,52 @@ def handle : Handler
       let _ := u
       go trees ress 0
     | _, _, _ => "BAD sdec fields"
+  | [op, os, cs, ks, keys, _texts], [u, tss, fps, ress, orcs] =>
+    if op == "seqd" || op == "seqt" then
+      match parseKind ks, parseCard cs keys, parseFp fps with
+      | some k, some (c, explicit), some fp =>
+        let split (s : String) : List String := if s == "-" then [] else s.splitOn ";"
+        let trees := (split tss).mapM fun t => if t == "!" then some none else (parseTree t).map some
+        let impls := (split ress).mapM parseObs
+        let oracles := (split orcs).mapM parseObs
+        match trees, impls, oracles with
+        | some trees, some impls, some oracles =>
+          if !fpSane (is32 k) fp then "DIFF float-table-not-exact-on-small-integers"
+          else judgeStream (tableOps fp []) (parseOpts os) c explicit k (u == "u1") trees impls oracles
+        | _, _, _ => "BAD seq items"
+      | _, _, _ => "BAD seq fields"
+    else "BAD c09 line"
+  | [op, os, cs, ks, keys, fss], [tss, ffs, fps, rts] =>
+    if op == "sencd" || op == "senct" then
+      match parseKind ks, parseCard cs keys, (fss.splitOn ";").mapM parseField, parseFf ffs, parseFp fps with
+      | some k, some (c, _), some fs, some ff, some fp =>
+        let ops := tableOps fp ff
+        let o := parseOpts os
+        let kt := kindTag k
+        if tss == "PANIC" || rts == "PANIC" then "VIOL panic"
+        else if !fs.all (encodable k) then s!"OK b=senc.{kt}.unrepresentable"
+        else
+          -- model: `encodeStream` (= value-wise `encode`, `C09_encode_stream_stateless`)
+          let (written, results) := encodeStream ops o k fs
+          if results.any (fun r => match r with | .ok _ => false | _ => true) then "DIFF model-encode-fails"
+          else if tss == "ERR" then "VIOL cannot-encode-stream"
+          else
+            match (tss.splitOn ";").mapM parseTree with
+            | none => "BAD senc trees"
+            | some its =>
+              -- the property first: decoding the stream the encoder wrote gives the values back, one by one
+              let want := fs.map fun f => showField (f.read k)
+              let got := (rts.splitOn ";").map fun s => match parseObs s with
+                | some (.ok _ g) => showField (g.read k)
+                | _ => "?" ++ s
+              if got != want then s!"VIOL stream-roundtrip got={rts} want={want}"
+              else if its.map showJ != written.map showJ then s!"DIFF model={written.map showJ}"
+              else
+                let back := decodeStream ops o c k written
+                if back.map (fun r => match r with | .ok g => showField (g.read k) | _ => "?") == want then s!"OK nt b=senc.{kt}.len{fs.length}"
+                else "DIFF model-stream-roundtrip"
+      | _, _, _, _, _ => "BAD senc fields"
+    else "BAD c09 line"
   | _, _ => "BAD c09 line"
 
 end GB.C09
